@@ -74,6 +74,9 @@ extern "C" void h_read(void) {
         catch (...) { outcome = 5; }
         vp_assert(outcome != 0 && outcome != 5, "io.outcome_is_return_or_expected_exception");
         vp_assert(!vp_file_is_open(), "io.stream_closed");
+#if CONCRETE_REST
+        if (EXPECT_OUTCOME) vp_assert(outcome == EXPECT_OUTCOME, "io.concrete_file_outcome_as_expected");
+#endif
     }
 }
 #if ENTRY == 2 && DEV == 1
